@@ -6,15 +6,34 @@ Local Open Scope N_scope.
 
 (** * byte-string helpers *)
 
+Lemma lenN_acc_length {A} (l : list A) : forall acc, lenN_acc l acc = acc + N.of_nat (length l).
+Proof.
+  remember (length l) as n eqn:Hn. revert l Hn.
+  induction n as [n IH] using lt_wf_ind. intros l Hn acc.
+  destruct l as [|x0 [|x1 [|x2 [|x3 [|x4 [|x5 [|x6 [|x7 t]]]]]]]]; cbn [lenN_acc]; subst n.
+  all: try (cbn [length]; lia).
+  rewrite (IH (length t)); [cbn [length]; lia | cbn [length]; lia | reflexivity].
+Qed.
+
 Lemma lenN_length {A} (l : list A) : lenN l = N.of_nat (length l).
-Proof. induction l as [|x l IH]; cbn [lenN length]; [reflexivity|]. rewrite IH. lia. Qed.
+Proof. unfold lenN. rewrite lenN_acc_length. lia. Qed.
+
+Lemma takeN_acc_firstn {A} (n : N) (l acc : list A) :
+  takeN_acc n l acc = rev acc ++ firstn (N.to_nat n) l.
+Proof.
+  revert n acc; induction l as [|x l IH]; intros n acc; cbn [takeN_acc].
+  - rewrite firstn_nil, rev_append_rev, !app_nil_r. reflexivity.
+  - destruct (N.eqb_spec n 0) as [->|Hn].
+    + cbn [N.to_nat firstn]. rewrite rev_append_rev, !app_nil_r. reflexivity.
+    + replace (N.to_nat n) with (S (N.to_nat (N.pred n))) by lia. cbn [firstn].
+      rewrite IH. cbn [rev]. rewrite <- app_assoc. reflexivity.
+Qed.
 
 Lemma takeN_firstn {A} (n : N) (l : list A) : takeN n l = firstn (N.to_nat n) l.
 Proof.
-  revert n; induction l as [|x l IH]; intros n; cbn [takeN].
-  - now rewrite firstn_nil.
-  - destruct (N.eqb_spec n 0) as [->|Hn]; [reflexivity|].
-    replace (N.to_nat n) with (S (N.to_nat (N.pred n))) by lia. cbn [firstn]. now rewrite IH.
+  unfold takeN. destruct (N.leb_spec (lenN l) n) as [Hl|Hl].
+  - symmetry. apply firstn_all2. rewrite lenN_length in Hl. lia.
+  - now rewrite takeN_acc_firstn.
 Qed.
 
 Lemma takeN_all {A} (n : N) (l : list A) : lenN l <= n -> takeN n l = l.
@@ -29,8 +48,8 @@ Lemma beq_eq a b : beq a b = true <-> a = b.
 Proof.
   revert b; induction a as [|x a IH]; intros [|y b]; cbn [beq]; split; intros Hq;
     try reflexivity; try discriminate.
-  - apply andb_true_iff in Hq as [H1 H2]. apply N.eqb_eq in H1. apply IH in H2. now subst.
-  - inversion Hq; subst. apply andb_true_iff; split; [apply N.eqb_refl | now apply IH].
+  - destruct (N.eqb_spec x y) as [->|]; [|discriminate]. apply IH in Hq. now subst.
+  - inversion Hq; subst. rewrite N.eqb_refl. now apply IH.
 Qed.
 
 Lemma beq_refl a : beq a a = true.
@@ -60,6 +79,7 @@ Notation check_entries := (check_entries H chunk_size span_size hcap).
 Notation get_chunk_hashes := (get_chunk_hashes H chunk_size span_size hcap).
 Notation on_pyramid_resp := (on_pyramid_resp H chunk_size span_size hcap).
 Notation send_pyramid := (send_pyramid H chunk_size span_size hcap).
+Notation find_pyramid := (find_pyramid H chunk_size span_size hcap).
 Notation pyr_step := (pyr_step H chunk_size span_size hcap).
 Notation pyr_run := (pyr_run H chunk_size span_size hcap).
 
@@ -67,13 +87,13 @@ Notation pyr_run := (pyr_run H chunk_size span_size hcap).
 
 Lemma hasher_sum_short span data : lenN data <= hcap -> hasher_sum span data = H span data.
 Proof.
-  intros Hl. unfold Model.hasher_sum, hasher_write. cbn [app lenN].
-  rewrite N.sub_0_r. now rewrite takeN_all.
+  intros Hl. unfold Model.hasher_sum, hasher_write. cbn [app].
+  change (lenN (@nil N)) with 0. rewrite N.sub_0_r. now rewrite takeN_all.
 Qed.
 
 Lemma cac_valid_go_spec a p : cac_valid_go a p = true <-> cac_valid a p.
 Proof.
-  unfold Model.cac_valid_go, Model.cac_valid.
+  unfold Model.cac_valid_go, Model.cac_valid. cbv zeta.
   destruct (N.ltb_spec (lenN p) span_size) as [Hs|Hs].
   { split; [discriminate | intros (Hc & _); lia]. }
   destruct (N.ltb_spec (chunk_size + span_size) (lenN p)) as [Hb|Hb].
@@ -191,16 +211,24 @@ Proof.
     + intros [= <- <- <-] a p [].
 Qed.
 
+Lemma find_pyramid_valid st root frames w f s st' ps c :
+  find_pyramid true st root frames w f s = (st', ps, c) ->
+  forall a p, In (a, p) ps -> cac_valid a p.
+Proof.
+  unfold Model.find_pyramid. destruct (mem root (fst st)); [intros [= <- <- <-] a p []|].
+  apply send_pyramid_valid.
+Qed.
+
 Lemma pyr_run_valid ops : forall st,
   (forall a p, In (a, p) (snd st) -> cac_valid a p) ->
   forall a p, In (a, p) (snd (fold_left (pyr_step true) ops st)) -> cac_valid a p.
 Proof.
   induction ops as [|o ops IH]; intros st Hst; cbn [fold_left]; [exact Hst|].
   apply IH. unfold Model.pyr_step.
-  destruct (send_pyramid true (fst st) (op_root o) (op_frames o) [] (op_walk o) (op_fail o) (op_source_ok o))
+  destruct (find_pyramid true (fst st) (op_root o) (op_frames o) (op_walk o) (op_fail o) (op_source_ok o))
     as [[st' ps] c] eqn:E. cbn [snd].
   intros a p Hin. apply in_app_or in Hin as [Hin|Hin]; [now apply Hst|].
-  eapply send_pyramid_valid; eassumption.
+  eapply find_pyramid_valid; eassumption.
 Qed.
 
 End CacProofs.
